@@ -1,10 +1,10 @@
 package drivers
 
 import (
-	"strings"
 	"crypto/x509"
 	"fmt"
 	"math/big"
+	"strings"
 	"time"
 
 	"go.uber.org/zap"
